@@ -162,6 +162,26 @@ def connects(rep, idx, P):
     rep.count("connect_calls", n)
 
 
+def dynamic_members(sig):
+    """Does the signature assemble its member dict by anything other than literals / constant-key stores?"""
+    init = sig.method("__init__")
+    if init is None:
+        return True
+    for n in ast.walk(init.node):
+        if isinstance(n, ast.Call) and isinstance(n.func, ast.Attribute) and n.func.attr == "update" and n.args and \
+                not isinstance(n.args[0], ast.Dict):
+            return True
+        if isinstance(n, ast.Call) and isinstance(n.func, ast.Attribute) and n.func.attr == "__init__" and n.args and \
+                isinstance(n.args[0], (ast.Subscript, ast.Call, ast.BinOp, ast.IfExp)):
+            return True
+        if isinstance(n, ast.Assign) and len(n.targets) == 1 and isinstance(n.targets[0], ast.Name) and \
+                n.targets[0].id == "members" and isinstance(n.value, (ast.Subscript, ast.Call, ast.BinOp)):
+            return True
+        if isinstance(n, ast.Dict) and any(k is None for k in n.keys):
+            return True
+    return False
+
+
 def member_table(rep, idx, sig, table):
     mem = idx.members(sig)
     site = sig.site
@@ -189,7 +209,9 @@ def member_table(rep, idx, sig, table):
         decl = mem.get(name)
         what = f"{sig.qual}.{name}: {flow}({shape})" + (f" iff {guard}" if guard else "")
         if not decl:
-            rep.bad("C20.5", site, what, "member is not declared")
+            # a member table that is assembled dynamically (lookup in a prebuilt dict, helper call, ...) cannot be read off
+            rep.form(False, "C20.5", site, what, "member not found in the declaration",
+                     wrong=None if dynamic_members(sig) else "member is not declared")
             continue
         f_, sh, conds, ln, arr = decl[0]
         ok_flow = f_ == flow
@@ -204,7 +226,14 @@ def member_table(rep, idx, sig, table):
             detail.append(f"shape {ir.show(sh)}, expected {shape}")
         if not ok_guard:
             detail.append(f"present under {[ir.show(x) + ('' if p else ' (negated)') for x, p in got_conds]}, expected {guard or 'always'}")
-        rep.check(ok_flow and ok_shape and ok_guard, "C20.5", site, what, "; ".join(detail))
+        wrong = None
+        if not ok_flow:
+            wrong = "wrong direction"
+        elif not ok_guard and not dynamic_members(sig):
+            wrong = "present under the wrong condition"
+        # a shape expression that differs from the role table may still denote the same shape (rebound parameter, cached
+        # value, property with unpacking): no discrepancy is named, the obligation is undecided
+        rep.form(ok_flow and ok_shape and ok_guard, "C20.5", site, what, "; ".join(detail), wrong=wrong)
     extra = sorted(set(mem) - set(table))
     rep.check(not extra, "C20.5", site, f"{sig.qual} has no members beyond its role table", f"unexpected members {extra}", nontrivial=False)
 
@@ -219,8 +248,11 @@ def parameters(rep, idx, P, sig, icls):
         if isinstance(st, ast.Assign) and len(st.targets) == 1 and isinstance(st.targets[0], ast.Attribute) and \
                 isinstance(st.targets[0].value, ast.Name) and st.targets[0].value.id == "self":
             stored.add(st.targets[0].attr.lstrip("_"))
-    rep.check(set(params) <= stored, "C20.4", site, f"{sig.qual}.__init__ stores every defining parameter {params}",
-              f"not stored: {sorted(set(params) - stored)}")
+    # each parameter must at least be readable back through a property of the same name
+    props = {p for p in params if sig.method(p) is not None and sig.method(p).is_property}
+    rep.form(set(params) <= stored or set(params) <= props, "C20.4", site, f"{sig.qual}.__init__ keeps every defining parameter {params}",
+             f"stored: {sorted(stored)}; properties: {sorted(props)}",
+             wrong=(f"parameter(s) {sorted(set(params) - stored - props)} are neither stored nor exposed") if (set(params) - stored - props) else None)
     # (b) __eq__ is true exactly when the other object is of this signature class and every defining parameter is equal:
     #     decided on the Boolean function the method computes (and-chain, early returns, != with False, ... all the same)
     eq = sig.method("__eq__")
